@@ -431,6 +431,9 @@ func init() {
 			if c.Idx%50 == 13 {
 				return runTwinInterfaces(c, r, false)
 			}
+			if c.Idx%43 == 9 {
+				return runC05AllGenerated(c, r)
+			}
 			var s Scenario
 			fam := ""
 			switch x := r.Intn(100); {
@@ -486,6 +489,11 @@ func init() {
 			}
 			if usesExotic(s) {
 				res.obs("cases_over_exotic_types", 1)
+			}
+			if c.Idx%11 == 7 {
+				// free-form subtypes (key=value, words, punctuation, "%2C")
+				s = oddSubs(s)
+				res.obs("cases_with_free_form_subtypes", 1)
 			}
 			res.Key = s.Key()
 			cf := factsOf(&s)
@@ -583,6 +591,13 @@ func init() {
 		Run: func(c *CaseCtx) CaseResult {
 			var res CaseResult
 			r := caseRand(c.Seed, "C07", c.Idx)
+			names := names
+			if c.Idx%9 == 4 {
+				// names that are DISTINCT after lower-casing although Unicode
+				// case folding identifies them in pairs (s/ſ, σ/ς, µ/μ)
+				names = []string{"s", "ſ", "σ", "ς", "µ"}
+				res.obs("cases_with_fold_equal_names", 1)
+			}
 			if c.Idx%5 >= 3 {
 				return runC07Multi(c, r, names)
 			}
@@ -1062,6 +1077,43 @@ func runC07Multi(c *CaseCtx, r *rand.Rand, names []string) (res CaseResult) {
 		}
 	})
 	res.obs(fmt.Sprintf("mode%d_cases", mode), 1)
+	res.Sample = sampleOf(s, outs)
+	return res
+}
+
+// runC05AllGenerated: EVERY converter of the case is manufactured by ONE
+// generator function, and they nest: the target needs Z from g1(A, C), whose C
+// comes from g2(B, D); A, B and D are supplied, the generator hands out g1
+// when it is shown the A value and g2 when it is shown the B value. No cycles,
+// every converter satisfiable: scope (b), every repetition succeeds.
+func runC05AllGenerated(c *CaseCtx, r *rand.Rand) (res CaseResult) {
+	p := r.Perm(nConcrete)
+	A, B, D, C, Z := p[0], p[1], p[2], p[3], p[4]
+	var s Scenario
+	s.Inputs = []Label{{Type: A}, {Type: B}, {Type: D}}
+	if r.Intn(2) == 0 {
+		s.Inputs[2].Name = "d"
+	}
+	g1 := FuncSpec{In: []Label{{Type: A}, {Type: C}}, Out: []Label{{Type: Z}}, InForm: r.Intn(3), OutForm: FormPos, Deliver: DelGen, GenTrig: A}
+	g2 := FuncSpec{In: []Label{{Type: B}, {Type: D}}, Out: []Label{{Type: C}}, InForm: r.Intn(3), OutForm: FormPos, Deliver: DelGen, GenTrig: B}
+	s.Convs = []FuncSpec{g1, g2}
+	if r.Intn(2) == 0 {
+		s.Convs = []FuncSpec{g2, g1}
+	}
+	s.Target = FuncSpec{In: []Label{{Type: Z}}, InForm: FormPos, OutForm: FormPos}
+	res.Key = "all-generated " + s.Key()
+	res.NonTrivial = true
+	res.obs("family.all-generated", 1)
+	res.obs("in_scope.b", 1)
+	oneGen := caseOneGen
+	caseOneGen = true // one generator function for both (the trigger types differ)
+	defer func() { caseOneGen = oneGen }()
+	outs, _ := runScenario(c, s, r, tierReps(c.Tier, 4, 12), &res, func(in *Inst, o *Outcome) {
+		if o.Class != ClsOK {
+			res.violate("C05", "incomplete/"+o.Class, "every converter is manufactured by one generator, all are satisfiable and acyclic, but the call ended with "+o.Class+": "+firstLine(errStr(o.Err))+o.Panic,
+				map[string]interface{}{"scenario": s.String(), "class": o.Class, "events": eventsStr(o.Events)})
+		}
+	})
 	res.Sample = sampleOf(s, outs)
 	return res
 }
